@@ -41,6 +41,8 @@ func checkC01(c *Ctx, r *Report) {
 	rdataConfined(c, r, "C01.R2.rdata-confined", "the fields that read to the end of the buffer (txt, octet, nsec, opt, svcb pairs, apl) run into the records that follow: a well-formed record inside a well-formed message is refused or swallows the next record's octets")
 	nsecZeroed(c, r, "C01.R2.nsec-zeroed")
 	c08StringCap(c, r, "C01.R1.string-cap")
+	wholeSectionScan(c, r, "C01.R3.opt-anywhere", "Msg.IsEdns0", "an OPT followed by two or more records is not found: packing an RCODE above 15 fails, a stale extended-RCODE octet is not reset, and Unpack returns only the low four bits of the RCODE")
+	exactRoomInDecoders(c, r, "C01.R2.exact-room", decodeScope(c))
 }
 
 // sideStructs are the hand-written wire-format structs with their packers.
